@@ -808,6 +808,20 @@ func (ft *fnTrans) requireEmitAllowed(event, reach string) {
 			return
 		}
 	}
+	if ed := ft.vc.P.cs.Events[event]; ed != nil && ed.Local {
+		// a local event is a modelling device of one subsystem: callers whose contract does not mention it need not
+		// declare it (the repository-wide closure check demands the declaration from every function that lies
+		// between a function mentioning the event and a function causing it)
+		mentioned := false
+		for _, cl := range append(append([]Clause{}, ft.fc.Ensures...), ft.fc.Requires...) {
+			if strings.Contains(cl.Src, event) {
+				mentioned = true
+			}
+		}
+		if !mentioned {
+			return
+		}
+	}
 	ft.vc.oblige("frame", ft.siteName("frame.event"), reach, "false", "callee causes event "+event+" but the contract has no `mayemit "+event+"`", 0)
 }
 
